@@ -583,6 +583,12 @@ def run(cfg):
     for part in runner.pmap(worker, units, cfg, chunk=2, pin=True, deadline_s=4 * 3600):
         runner.merge_counts(total, part)
     rep.extend_violations(total.get('violations', []))
+    # server side: every request sequence up to the bound on the real connection handler (c14_server)
+    from . import c14_server
+    srv = {}
+    for part in runner.pmap(c14_server.work, c14_server.cases(cfg.quick), cfg):
+        runner.merge_counts(srv, part)
+    rep.extend_violations(srv.get('violations', []))
     outcomes = total.get('outcomes', {})
     rep.coverage = {
         'states': sum(len(v) for v in outcomes.values()),
@@ -597,6 +603,10 @@ def run(cfg):
                             'scripts enumerated but not explored (3 callers, other orders / cut frames)':
                                 len([c for c in confs if c.get('bound', 0) is None])},
         'scripts': len(confs),
+        'server_side': {'request_kinds': [r[0] for r in c14_server.REQUESTS], 'deliveries': c14_server.DELIVERIES,
+                        'max_requests_per_connection': cfg.pick(2, 3), 'runs (every sequence x every delivery)': srv.get('server_runs', 0),
+                        'requests_judged': srv.get('server_requests', 0),
+                        'distinct_observations': len(srv.get('server_outcomes', ()))},
         'executions_by_preemptions': total.get('by_preemptions', {}),
         'distinct_outcomes': sum(len(v) for v in outcomes.values()),
         'scripts_with_a_single_outcome': len([1 for v in outcomes.values() if len(v) < 2]),
@@ -606,14 +616,18 @@ def run(cfg):
                 'every schedule of loop / callers / server with at most the number of preemptions given in bound_completed '
                 '(the plan is in run()); '
                 'a subset additionally at source-line granularity inside call/_listen/_run/_cleanup_pending_responses; '
-                'states = distinct (per-caller result, verdict) outcomes per script',
+                'states = distinct (per-caller result, verdict) outcomes per script; server side: every sequence of '
+                '<= max_requests_per_connection requests over the request kinds x every delivery pattern on the real '
+                'handle_client/_listen/execute_server_command with two virtual loops, each request judged: answered with '
+                'the twin interpreter\'s value, or connection ended (never silence on an open connection)',
     }
     rep.assumptions = [
         'the event loop runs one handle at a time; caller threads interleave with it only at scheduling points (handle '
         'boundaries, result(), Event.wait, server actions) and, in line-level mode, at source lines of the named functions; '
         'bytecode-level switches inside a line are not modelled',
         'EOF leaves the writer open (half-close), a reset closes it and makes drain() raise',
-        'server-side evaluation failure is covered by C13 (live server), not here',
+        'server side: the loops are driven alternately to quiescence (one schedule); thread interleavings of the io and '
+        'klong loops of a real server are not explored there',
     ]
     return rep
 
@@ -623,6 +637,9 @@ def replay(cfg, path):
     with open(path) as f:
         r = json.load(f)
     case = r['case']
+    if case.get('kind') == 'server':
+        from . import c14_server
+        return c14_server.replay(case)
     conf = {'name': case['config'], 'callers': case['callers'], 'script': [tuple(a) for a in case['script']],
             'slow_drain': case.get('slow_drain', False)}
     try:
